@@ -705,6 +705,8 @@ def operand_for(rng, alt, labels, addr_hint=0):
         if not CLEAN[0] and rng.random() < 0.25:
             # a register name where a number or label is expected: never accepted by this alternative
             rg = rng.choice(REGS)
+            if rng.random() < 0.4:
+                rg = rg.upper()                  # a register is a register in any letter case
             e = rng.choice([Txt(rg, [t_lab(rg)]), Txt(rg + '+1', [t_lab(rg), t_op('OAdd'), t_num(1)]),
                             Txt('1+' + rg, [t_num(1), t_op('OAdd'), t_lab(rg)])])
         if k == 'indirect_numeric':
